@@ -160,9 +160,32 @@ func hashedFields(fn *ssa.Function) (map[string]bool, []ssa.CallInstruction) {
 		}
 	}
 	isHash := func(v ssa.Value) bool {
-		return Derives(v, IsCallResult(cachePkg+".NewHash"))
+		if Derives(v, IsCallResult(cachePkg+".NewHash")) {
+			return true
+		}
+		// a helper that is handed the hash
+		return Derives(v, func(x ssa.Value) bool {
+			p, ok := x.(*ssa.Parameter)
+			return ok && strings.HasSuffix(p.Type().String(), "lintcmd/cache.Hash")
+		})
 	}
-	for _, ci := range Calls(fn, true) {
+	var allCalls []ssa.CallInstruction
+	for _, f := range DeepFuncs(fn, 2) {
+		if f != fn && f.Parent() == nil {
+			// a helper counts only if it is handed a hash
+			takesHash := false
+			for _, prm := range f.Params {
+				if strings.HasSuffix(prm.Type().String(), "lintcmd/cache.Hash") {
+					takesHash = true
+				}
+			}
+			if !takesHash {
+				continue
+			}
+		}
+		allCalls = append(allCalls, Calls(f, false)...)
+	}
+	for _, ci := range allCalls {
 		name := CalleeName(ci.Common())
 		args := ci.Common().Args
 		switch name {
@@ -564,16 +587,50 @@ func runC04(c *Ctx) {
 		// GOOS / GOARCH (constants in SSA: use the AST)
 		fd, p := c.FuncDecl(ch.Object().(*types.Func))
 		seenSel := map[string]bool{}
+		// locals that are plain copies of runtime.GOOS / runtime.GOARCH
+		copies := map[types.Object]string{}
+		runtimeSel := func(e ast.Expr) string {
+			if se, ok := ast.Unparen(e).(*ast.SelectorExpr); ok {
+				if obj := p.TypesInfo.Uses[se.Sel]; obj != nil && obj.Pkg() != nil && obj.Pkg().Path() == "runtime" {
+					return obj.Name()
+				}
+			}
+			if id, ok := ast.Unparen(e).(*ast.Ident); ok {
+				return copies[p.TypesInfo.ObjectOf(id)]
+			}
+			return ""
+		}
+		ast.Inspect(fd.Body, func(n ast.Node) bool {
+			switch n := n.(type) {
+			case *ast.AssignStmt:
+				if len(n.Lhs) == len(n.Rhs) {
+					for i := range n.Lhs {
+						if id, ok := n.Lhs[i].(*ast.Ident); ok {
+							if nm := runtimeSel(n.Rhs[i]); nm != "" {
+								copies[p.TypesInfo.ObjectOf(id)] = nm
+							}
+						}
+					}
+				}
+			case *ast.ValueSpec:
+				if len(n.Names) == len(n.Values) {
+					for i := range n.Names {
+						if nm := runtimeSel(n.Values[i]); nm != "" {
+							copies[p.TypesInfo.ObjectOf(n.Names[i])] = nm
+						}
+					}
+				}
+			}
+			return true
+		})
 		ast.Inspect(fd.Body, func(n ast.Node) bool {
 			ce, ok := n.(*ast.CallExpr)
 			if !ok {
 				return true
 			}
 			for _, a := range ce.Args {
-				if se, ok := a.(*ast.SelectorExpr); ok {
-					if obj := p.TypesInfo.Uses[se.Sel]; obj != nil && obj.Pkg() != nil && obj.Pkg().Path() == "runtime" {
-						seenSel[obj.Name()] = true
-					}
+				if nm := runtimeSel(a); nm != "" {
+					seenSel[nm] = true
 				}
 			}
 			return true
@@ -619,60 +676,86 @@ func runC04(c *Ctx) {
 		}
 		t, path := PathAvoiding(ch, nil, func(in ssa.Instruction) bool { return in == sum }, func(in ssa.Instruction) bool { return isFilesWrite(in) || isFileLoop(in) }, nil)
 		c.Check(FuncKey(ch)+"::every-path-hashes-the-files", sum.Pos(), t == nil, "every path to Sum must either write the export file's build id or enter the per-file fallback (files + go.mod); path that does neither: %s", PathString(ch, path))
-		// every import with an export file contributes its content (build id or file hash) on every path
-		exportOfDep := func(v ssa.Value) bool {
-			return DerivesLocal(v, func(x ssa.Value) bool {
-				fa, ok := x.(*ssa.FieldAddr)
-				if !ok || !IsFieldOf("PackageSpec", "ExportFile")(fa) {
+		// every import with an export file contributes its content (build id or file hash) on every path.
+		// The per-import work may sit in computeHash's loop or in a helper that is handed the import.
+		nImportRules := 0
+		for _, F := range DeepFuncs(ch, 2) {
+			F := F
+			exportOfDep := func(v ssa.Value) bool {
+				return DerivesLocal(v, func(x ssa.Value) bool {
+					fa, ok := x.(*ssa.FieldAddr)
+					if !ok || !IsFieldOf("PackageSpec", "ExportFile")(fa) {
+						return false
+					}
+					_, isParam := fa.X.(*ssa.Parameter)
+					return !isParam || F != ch // in computeHash itself the parameter is the package, not an import
+				})
+			}
+			nonEmpty := ComplementEdges(EqEdges(F, func(x, y ssa.Value) bool {
+				k, ok := y.(*ssa.Const)
+				return ok && k.Value != nil && k.Value.ExactString() == `""` && exportOfDep(x)
+			}))
+			for e := range LenNonZeroEdges(F, exportOfDep) {
+				nonEmpty[e] = true
+			}
+			if len(nonEmpty) == 0 {
+				continue
+			}
+			contentWrite := func(in ssa.Instruction) bool {
+				ci, ok := in.(ssa.CallInstruction)
+				if !ok || !IsCallTo(ci, "fmt.Fprintf", "fmt.Fprint", "fmt.Fprintln", "io.WriteString", cachePkg+".Hash.Write") {
 					return false
 				}
-				_, isParam := fa.X.(*ssa.Parameter)
-				return !isParam
-			})
-		}
-		nonEmpty := ComplementEdges(EqEdges(ch, func(x, y ssa.Value) bool {
-			k, ok := y.(*ssa.Const)
-			return ok && k.Value != nil && k.Value.ExactString() == `""` && exportOfDep(x)
-		}))
-		if len(nonEmpty) == 0 {
-			c.Undecided("computeHash no longer distinguishes imports without an export file")
-		}
-		contentWrite := func(in ssa.Instruction) bool {
-			ci, ok := in.(ssa.CallInstruction)
-			if !ok || !IsCallTo(ci, "fmt.Fprintf") {
+				for _, a := range ci.Common().Args[1:] {
+					if Derives(a, func(v ssa.Value) bool {
+						call, ok := v.(*ssa.Call)
+						return ok && IsCallTo(call, loaderPkg+".getBuildid", cachePkg+".FileHash") && exportOfDep(call.Call.Args[0])
+					}) {
+						return true
+					}
+				}
 				return false
 			}
-			for _, a := range ci.Common().Args[1:] {
-				if Derives(a, func(v ssa.Value) bool {
-					call, ok := v.(*ssa.Call)
-					return ok && IsCallTo(call, loaderPkg+".getBuildid", cachePkg+".FileHash") && exportOfDep(call.Call.Args[0])
-				}) {
-					return true
+			for e := range nonEmpty {
+				var blk *ssa.BasicBlock
+				var iff ssa.Instruction
+				for _, b := range F.Blocks {
+					if b.Index == e.Block {
+						blk = b.Succs[e.Succ]
+						iff = b.Instrs[len(b.Instrs)-1]
+					}
 				}
+				first := blk.Instrs[0]
+				isEnd := func(in ssa.Instruction) bool {
+					if in == sum || in == iff {
+						return true
+					}
+					if r, ok := in.(*ssa.Return); ok && F != ch {
+						// the helper returns normally (no error)
+						if len(r.Results) == 0 {
+							return true
+						}
+						last := ReturnOperand(r, len(r.Results)-1)
+						return last == nil || IsNilConst(last)
+					}
+					return false
+				}
+				t, path := PathAvoiding(F, first, isEnd, func(in ssa.Instruction) bool {
+					if contentWrite(in) {
+						return true
+					}
+					_, isRet := in.(*ssa.Return)
+					return isRet && !isEnd(in)
+				}, nil)
+				if contentWrite(first) {
+					t = nil
+				}
+				nImportRules++
+				c.Check(FuncKey(ch)+"::loader.PackageSpec.Imports-content-on-every-path", first.Pos(), t == nil, "an import that has an export file must contribute that file's build id or hash to the key on every path; path that hashes only its name: %s", PathString(F, path))
 			}
-			return false
 		}
-		for e := range nonEmpty {
-			var blk *ssa.BasicBlock
-			var iff ssa.Instruction
-			for _, b := range ch.Blocks {
-				if b.Index == e.Block {
-					blk = b.Succs[e.Succ]
-					iff = b.Instrs[len(b.Instrs)-1]
-				}
-			}
-			first := blk.Instrs[0]
-			t, path := PathAvoiding(ch, first, func(in ssa.Instruction) bool { return in == sum || in == iff }, func(in ssa.Instruction) bool {
-				if contentWrite(in) {
-					return true
-				}
-				_, isRet := in.(*ssa.Return)
-				return isRet
-			}, nil)
-			if contentWrite(first) {
-				t = nil
-			}
-			c.Check(FuncKey(ch)+"::loader.PackageSpec.Imports-content-on-every-path", first.Pos(), t == nil, "an import that has an export file must contribute that file's build id or hash to the key on every path; path that hashes only its name: %s", PathString(ch, path))
+		if nImportRules == 0 {
+			c.Undecided("computeHash no longer distinguishes imports without an export file")
 		}
 		// no hash write inside a loop over a map
 		for _, w := range append(append([]ssa.CallInstruction{}, chWrites...), doWrites...) {
@@ -695,12 +778,12 @@ func runC04(c *Ctx) {
 			c.Undecided("newSubrunner no longer builds analyzerNames with strings.Join")
 		}
 		fromParam := func(v ssa.Value) bool {
-			return DerivesLocal(v, func(x ssa.Value) bool {
+			return SliceHas(v, SliceOpts{ThroughCalls: true}, func(x ssa.Value) bool {
 				p, ok := x.(*ssa.Parameter)
 				return ok && strings.Contains(p.Type().String(), "analysis.Analyzer")
 			})
 		}
-		c.Check(FuncKey(ns)+"::names-of-the-executed-analyzers", ns.Pos(), fromParam(joinArg) && Derives(joinArg, IsFieldOf("analysis.Analyzer", "Name")), "analyzerNames is built from the Name fields of the analyzers parameter")
+		c.Check(FuncKey(ns)+"::names-of-the-executed-analyzers", ns.Pos(), fromParam(joinArg) && SliceHas(joinArg, SliceOpts{ThroughCalls: true}, IsFieldOf("analysis.Analyzer", "Name")), "analyzerNames is built from the Name fields of the analyzers parameter")
 		same := false
 		for _, v := range storedToField(ns, "runner.subrunner", "analyzers") {
 			if _, ok := v.(*ssa.Parameter); ok {
@@ -759,9 +842,42 @@ func runC04(c *Ctx) {
 		}
 		sort.Slice(fns, func(i, j int) bool { return fns[i].String() < fns[j].String() })
 		seen := map[string]bool{}
+		// thin wrappers: a module function that passes one of its parameters straight to an ambient API
+		// (func openSource(name string) (*os.File, error) { return os.Open(name) }) is judged at its call sites
+		type wrap struct {
+			api   string
+			param int
+		}
+		wrappers := map[*ssa.Function]wrap{}
 		for _, fn := range fns {
 			for _, ci := range Calls(fn, false) {
 				n := CalleeName(ci.Common())
+				if !isAmbient(n) || len(ci.Common().Args) == 0 {
+					continue
+				}
+				if _, listed := table["ambient"][fn.String()+" calls "+n]; listed {
+					continue
+				}
+				for pi, prm := range fn.Params {
+					if DerivesLocal(ci.Common().Args[0], func(v ssa.Value) bool { return v == ssa.Value(prm) }) && len(fn.Blocks) <= 3 {
+						wrappers[fn] = wrap{n, pi}
+					}
+				}
+			}
+		}
+		for _, fn := range fns {
+			if _, isWrapper := wrappers[fn]; isWrapper {
+				continue
+			}
+			for _, ci := range Calls(fn, false) {
+				n := CalleeName(ci.Common())
+				arg0 := ssa.Value(nil)
+				if len(ci.Common().Args) > 0 {
+					arg0 = ci.Common().Args[0]
+				}
+				if w, ok := wrappers[ci.Common().StaticCallee()]; ok && w.param < len(ci.Common().Args) {
+					n, arg0 = w.api, ci.Common().Args[w.param]
+				}
 				if !isAmbient(n) {
 					continue
 				}
@@ -786,7 +902,7 @@ func runC04(c *Ctx) {
 						covered, how = hashedCH[field], "hashed by computeHash"
 					}
 					fromField := false
-					for y := range BackSlice(ci.Common().Args[0], SliceOpts{}) {
+					for y := range BackSlice(arg0, SliceOpts{}) {
 						var base ssa.Value
 						var idx int
 						switch y := y.(type) {
